@@ -233,7 +233,7 @@ fn insert_inner(spec: &SourceSpec, ctx: Ctx, given: Option<(FdX, Option<OwnedFd>
     w(|w| w.depth += 1);
     let guard = CbGuard(uid);
     let res: Result<calloop::RegistrationToken, (calloop::Error, Option<Uid>)> = if spec.lifecycle {
-        let zoo: Zoo<true> = Zoo { uid, inner, synth_token: None };
+        let zoo: Zoo<true> = Zoo { uid, inner, synth_token: None, registered: false };
         let cb = move |ev: Ev, _: &mut (), _: &mut ()| {
             let _g = &guard;
             exec::on_callback(uid, ev)
@@ -255,7 +255,7 @@ fn insert_inner(spec: &SourceSpec, ctx: Ctx, given: Option<(FdX, Option<OwnedFd>
             }
         }
     } else {
-        let zoo: Zoo<false> = Zoo { uid, inner, synth_token: None };
+        let zoo: Zoo<false> = Zoo { uid, inner, synth_token: None, registered: false };
         let cb = move |ev: Ev, _: &mut (), _: &mut ()| {
             let _g = &guard;
             exec::on_callback(uid, ev)
